@@ -134,7 +134,7 @@ def step (st : St) (n : Nat) (ln : Line) : St × List String :=
   | "ndel" =>
     let key := tokNat (a.getD 0 ""); let off := tokNat (a.getD 1 "")
     let noop := match st.nref.get? key with | some (_, s) => decide (s ≤ 0) | none => true
-    let st' := { st with nref := refDelete st.nref key, hist := { st.hist with noopDelete := st.hist.noopDelete || noop } }
+    let st' := { st with nref := refDelete st.nref key, hist := { st.hist with noopDelete := st.hist.noopDelete || (noop && st.kind == "mem") } }
     if st.kind == "mem" then ({ st' with mem := st.mem.delete st.batch key off }, diff n ln ["ok"] ++ [if noop then "COV ndel.noop" else "COV ndel.live"])
     else if st.kind == "ldb" then ({ st' with ldb := st.ldb.delete key off }, diff n ln ["ok"] ++ [if noop then "COV ndel.noop" else "COV ndel.live"])
     else (st, diff n ln ["unsupported"])
